@@ -1,11 +1,12 @@
 """Scheduled scenarios outside the port models: ParserQueue fed from several threads (C10) and close() called from several threads (C11).
-Real threads, the deterministic scheduler of harness/sched.py, every schedule with a bounded number of preemptions; implementation against
-the statement (no model)."""
+Real threads, the deterministic scheduler of harness/sched.py, every schedule with a bounded number of preemptions; the statement on
+the real run, and every run replayed on Model/ConcPQ.v (component 125) / Model/ConcClose.v (component 124)."""
 import threading
 
 import canon
 import sched as S
 
+COMP_CLOSE, COMP_PQ = 124, 125
 LOCK_TYPES = (type(threading.Lock()), type(threading.RLock()))
 
 
@@ -63,13 +64,17 @@ def run_pqueue(progs, policy):
     from mido.backends._parser_queue import ParserQueue
     sc = S.Sched(len(progs))
 
+    log = []
+
     class Q(ParserQueue):
         def put(self, msg):                      # the public hook every message goes through on its way into the queue
             sc.yield_point()
+            log.append((S.cur(), msg))
             return ParserQueue.put(self, msg)
     q = Q()
     swap_locks(q, sc)
     polled = []
+    polls = [[] for _ in progs]
 
     def body_for(prog, t):
         def body(results):
@@ -78,6 +83,7 @@ def run_pqueue(progs, policy):
                     for _ in range(step[1]):
                         sc.yield_point()
                         m = q.poll()
+                        polls[t].append(m)
                         if m is not None:
                             polled.append(m)
                 else:
@@ -94,8 +100,13 @@ def run_pqueue(progs, policy):
                 fail = ('pqueue-thread-raises:' + type(oc[1]).__name__, 'ParserQueue fed from several threads: thread %d raised %r under the schedule %r' % (t, oc[1], trace))
     finally:
         sc.stop()
+    rest = list(q.iterpoll())
+    out = [len(log)] + [x for (tt, m) in log for x in [tt] + canon.msg_ints(m)] + [-9]
+    for t in range(len(progs)):
+        out += [len(polls[t])] + [x for m in polls[t] for x in ([0] if m is None else [1] + canon.msg_ints(m))] + [-9]
+    out += [len(rest)] + [x for m in rest for x in canon.msg_ints(m)]
     if fail is None and complete:
-        got = [m.bytes() for m in polled] + [m.bytes() for m in q.iterpoll()]
+        got = [m.bytes() for m in polled] + [m.bytes() for m in rest]
         sent = [enc for p in progs for step in p if step[0] != 'poll' for enc in step]
         if sorted(got) != sorted(sent):
             fail = ('pqueue-lost-or-duplicated', 'ParserQueue fed from several threads: fed %r, handed out %r (schedule %r)' % (sent, got, trace))
@@ -106,7 +117,48 @@ def run_pqueue(progs, policy):
                 if seen != mine:
                     fail = ('pqueue-order', 'ParserQueue fed from several threads: the messages thread %d fed in the order %r come out as %r (schedule %r)' % (t, mine, seen, trace))
                     break
-    return trace, fail
+    return trace, fail, pq_case(progs, trace), out
+
+
+def pq_case(progs, trace):
+    """the run as a case of Model/ConcPQ.v (component 125): programs, and the schedule in the model's steps - one scheduler step of a feeding
+    thread is: take the lock and feed (two model steps), one put, or the release; a blocked attempt, a poll and a step of a finished thread are one"""
+    import mido
+    ops = []
+    for p in progs:
+        o = []
+        for step in p:
+            if step[0] == 'poll':
+                o += [('poll',)] * step[1]
+            else:
+                o.append(('put', [canon.msg_ints(mido.Message.from_bytes(enc)) for enc in step]))
+        ops.append(o)
+    case = [1, len(progs)]
+    for o in ops:
+        case.append(len(o))
+        for op in o:
+            case += [1] if op[0] == 'poll' else [0, len(op[1])] + [x for m in op[1] for x in m]
+    idx, phase, left, lock, sched = [0] * len(ops), [0] * len(ops), [0] * len(ops), None, []
+    for t in trace:
+        if idx[t] >= len(ops[t]) or ops[t][idx[t]][0] == 'poll':
+            sched.append(t)
+            idx[t] += 1 if idx[t] < len(ops[t]) else 0
+        elif phase[t] == 0:
+            if lock is None:
+                lock, left[t] = t, len(ops[t][idx[t]][1])
+                sched += [t, t]
+                phase[t] = 1 if left[t] else 2
+            else:
+                sched.append(t)
+        elif phase[t] == 1:
+            sched.append(t)
+            left[t] -= 1
+            phase[t] = 1 if left[t] else 2
+        else:
+            sched.append(t)
+            lock, phase[t] = None, 0
+            idx[t] += 1
+    return case + sched
 
 
 def pqueue_scenarios(quick):
@@ -121,15 +173,17 @@ def pqueue_scenarios(quick):
     fixed = []
     for p in progs:
         fixed.append([[step if (isinstance(step, tuple)) else step for step in th] for th in p])
-    total, failures, exhausted = 0, [], 0
+    total, failures, exhausted, replays = 0, [], 0, []
     for p in fixed:
         # threads whose single step is a poll are written [('poll', k)]
         norm = [[(s if isinstance(s, tuple) else s) for s in th] for th in p]
-        runs, done = explore(lambda policy, norm=norm: run_pqueue(norm, policy), 2 if quick else 3, 1500 if quick else 30000)
+        keep = []
+        runs, done = explore(lambda policy, norm=norm: (lambda r: (keep.append(r[2:]), r[:2])[1])(run_pqueue(norm, policy)), 2 if quick else 3, 1500 if quick else 30000)
         total += len(runs)
         exhausted += int(done)
         failures += [f for _, f in runs if f is not None]
-    return total, exhausted, len(fixed), failures
+        replays += keep
+    return total, exhausted, len(fixed), failures, replays
 
 
 # ------------------------------------------------------------------ close() from several threads
@@ -164,21 +218,57 @@ def run_close(nthreads, autoreset, policy):
                 fail = ('close-thread-raises:' + type(oc[1]).__name__, 'close() from %d threads: thread %d raised %r (schedule %r)' % (nthreads, t, oc[1], trace))
     finally:
         sc.stop()
+    out = [st['closes'], 1 if port.closed else 0] + [1 if s_ == 'done' else 0 for s_ in sc.state]
+    idx_phase, lock, closed, sched = [0] * nthreads, None, False, []
+    for t in trace:
+        ph = idx_phase[t]
+        if ph == 0:
+            if lock is None:
+                lock = t
+                sched += [t, t]
+                idx_phase[t] = 2 if closed else 1
+            else:
+                sched.append(t)
+        elif ph == 1:
+            sched += [t, t]
+            closed = True
+            idx_phase[t] = 2
+        elif ph == 2:
+            sched.append(t)
+            lock = None
+            idx_phase[t] = 3
+        else:
+            sched.append(t)
+    case = [1, nthreads] + sched
     if fail is None and complete:
         if st['closes'] != 1 or not port.closed:
             fail = ('closed-twice', 'close() from %d threads released the device %d times (closed=%r; schedule %r)' % (nthreads, st['closes'], port.closed, trace))
         elif autoreset and st['sent'] != 32:
             fail = ('autoreset', 'close() from %d threads on an autoreset port sent %d reset messages (schedule %r)' % (nthreads, st['sent'], trace))
-    return trace, fail
+    return trace, fail, (case if not autoreset else None), out
 
 
 def close_scenarios(quick):
-    total, failures, exhausted, n = 0, [], 0, 0
+    total, failures, exhausted, n, replays = 0, [], 0, 0, []
     for nthreads in (2, 3):
         for autoreset in (False, True):
             n += 1
-            runs, done = explore(lambda policy, a=autoreset, k=nthreads: run_close(k, a, policy), 2 if quick else 3, 800 if quick else 20000)
+            keep = []
+            runs, done = explore(lambda policy, a=autoreset, k=nthreads: (lambda r: (keep.append(r[2:]), r[:2])[1])(run_close(k, a, policy)), 2 if quick else 3, 800 if quick else 20000)
             total += len(runs)
             exhausted += int(done)
             failures += [f for _, f in runs if f is not None]
-    return total, exhausted, n, failures
+            replays += [k_ for k_ in keep if k_[0] is not None]
+    return total, exhausted, n, failures, replays
+
+
+def replay_on_model(out, comp, replays, label):
+    """compare what the real runs produced with the model run on the same programs under the same (expanded) schedules"""
+    import core
+    cache, cases = {}, []
+    for case, res in replays:
+        if tuple(case) not in cache:
+            cache[tuple(case)] = (res, None, label)
+            cases.append(case)
+    rec = core.eval_cases(comp, cases, lambda c: cache[tuple(c)])
+    core.merge_into(out, rec, label)
